@@ -15,7 +15,7 @@ sub_names = {1: "the ordered history of one run with init_tracing()"}
 rule = ("cases = 1-5 scenarios (1-3 steps each, @retry(N) with failing first attempts or none) whose step bodies emit 0-3 tracing "
         "events before and 0-2 after an await point that yields 0-3 times (30% of the cases have one chatty step with a burst of 26-89 "
         "messages; 25% of the steps emit inside a user span nested in the step's span; 20% of the steps emit messages whose text contains double underscores; 40% of the runs are polled inside an "
-        "application-level span; in 25% the cucumber layer sits behind LevelFilter::WARN and the messages are warnings; in 25% a which_scenario classifier is installed after init_tracing()), concurrency 1..8 or unlimited; ONE run per process "
+        "application-level span; in 25% the cucumber layer sits behind LevelFilter::WARN and the messages are warnings; in 25% a which_scenario classifier is installed after init_tracing(); in 35% before and/or after hooks log 0-3 messages inside their own spans), concurrency 1..8 or unlimited; ONE run per process "
         "(the subscriber is global) through the REAL Cucumber::init_tracing() with a recording writer in front of which there is no "
         "Normalize. The trace points of the hook (forwarder calls, span closes, subscriptions), the harness's own records (step "
         "entry with its span, every emitted message) and the events form one totally ordered history; the Coq protocol model must "
@@ -28,7 +28,8 @@ trusted_base = [
     "the `tracing` / `tracing-subscriber` crates (span lifecycle, same-thread ordering of events and span close) are third-party",
     "Rust harness /verif/harness-tracing, python orchestrator /verif/lib",
 ]
-assumptions = ["logs are emitted on the runner's thread, inside the span of the step that emits them",
+assumptions = ["logs are emitted on the runner's thread, inside the span of the step or hook that emits them",
+               "known-finding class K20a (messages logged inside an After hook) is excluded by hypothesis",
                "scenario registration (start_scenarios / finish_scenario) is not modelled: every log belongs to a running scenario"]
 
 
@@ -51,6 +52,11 @@ def gen_one(rng):
         case["filter"] = "warn"
     if rng.random() < 0.25:
         case["which_after"] = True
+    # 35%: before / after hooks that log inside their own spans (after-hook logs are the known class K20a)
+    if rng.random() < 0.35:
+        trip = lambda: [rng.choice([0, 1, 2]), rng.choice([0, 0, 1, 2]), rng.choice([0, 1])]
+        k = rng.randrange(3)
+        case["hooks"] = dict(before=trip() if k != 1 else None, after=trip() if k != 0 else None)
     return case
 
 
@@ -88,7 +94,7 @@ def panic_result(case):
 
 
 def nmsgs(case):
-    return sum(st["pre"] + st["post"] for sc in case["scenarios"] for st in sc["steps"])
+    return sum(sum(h[0] + h[2] for h in (case.get("hooks") or {}).values() if h) * len(case["scenarios"]) for _ in [0]) + sum(st["pre"] + st["post"] for sc in case["scenarios"] for st in sc["steps"])
 
 
 def nontrivial(case, res):
@@ -101,5 +107,5 @@ def describe(case, res):
             "retry=%s" % any(sc["retry"] for sc in case["scenarios"]), "outer_span=%s" % bool(case.get("outer")),
             "inner_span=%s" % any(st.get("inner") for sc in case["scenarios"] for st in sc["steps"]),
             "dunder=%s" % any(st.get("under") for sc in case["scenarios"] for st in sc["steps"]),
-            "filter=%s" % case.get("filter", "info"), "which_after=%s" % bool(case.get("which_after")),
+            "filter=%s" % case.get("filter", "info"), "hooks=%s" % ("none" if not case.get("hooks") else "+".join(k for k in ("before", "after") if case["hooks"].get(k))), "which_after=%s" % bool(case.get("which_after")),
             "burst=%s" % any(st["pre"] > 8 or st["post"] > 8 for sc in case["scenarios"] for st in sc["steps"])]
